@@ -62,4 +62,29 @@ let () =
         (match List.map fm_node (split_on "/" nodes) with
          | cur :: route -> if sw_m_route_ok n (fm_nats np) d' (fm_bound e) cur route then "1" else "0"
          | [] -> failwith "smok route")
-    | _ -> failwith "smok")
+    | _ -> failwith "smok");
+  (* renum nprocs | layout / layout / ... (constructor order) | cur | l1 / l2 ... : does every step of the route join two
+     layouts the constructor paired (route_enum_b, hypothesis of c01_route_within_buffer)? *)
+  register "renum" (fun t ->
+    match split_on "|" t with
+    | [np; lays; cur; route] ->
+        if route_enum_b (fm_nats np) (List.map fm_nats (split_on "/" lays)) (fm_nats cur) (List.map fm_nats (fm_route route)) then "1" else "0"
+    | _ -> failwith "renum");
+  (* hbuf N | nprocs | layout / layout ... | r : handler_bufsize on rank r *)
+  register "hbuf" (fun t ->
+    match split_on "|" t with
+    | [n; np; lays; [r]] -> string_of_int (int_of_nat (hbuf (fm_nats n) (fm_nats np) (List.map fm_nats (split_on "/" lays)) (nat_of_int (int_of_string r))))
+    | _ -> failwith "hbuf");
+  (* swbuf N | topology | w | handler sizes | L1 ~ L2 / L1 ~ L2 ... : LayoutSwapper._buffer_size on world rank w from the
+     handlers' sizes and the enumerated cross-handler pairs (L = h , dims , axes), or "none" where the constructor raises *)
+  register "swbuf" (fun t ->
+    match split_on "|" t with
+    | [n; np; [w]; hs; pairs] ->
+        let n = fm_nats n in
+        let d' = nat_of_int (List.length n - 1) in
+        let pr = (match pairs with [] -> [] | _ -> List.map (fun p -> match split_on "~" p with
+                    | [a; b] -> (snd (fm_node a), snd (fm_node b)) | _ -> failwith "pair") (split_on "/" pairs)) in
+        (match sw_bufsize n (fm_nats np) d' (fm_nats hs) pr (nat_of_int (int_of_string w)) with
+         | None -> "none" | Some x -> string_of_int (int_of_nat x))
+    | _ -> failwith "swbuf")
+
